@@ -1111,6 +1111,17 @@ func c06Random(s Src, tier string) *Case {
 	if Chance(s, "envfault", 1, 6) {
 		return c06EnvCase(s)
 	}
+	if Chance(s, "grammar", 1, 4) {
+		// any syntactically valid program: if it reports a runtime error, everything stops there
+		// and the status is 70; if it does not, the status is 0 (no prediction of what it prints)
+		prog := randomEffectfulProgram(s)
+		cs := &Case{Prop: "C06", Kind: "grammar", Sig: "grammar", Program: prog, FaultKind: "unknown"}
+		cfg := scriptCfg(prog, c06Stdin(40))
+		cfg.TTY = drawTTY(s)
+		cs.Runs = []Run{{Role: "run", Cfg: cfg}}
+		cs.Aux = &Aux{C06: &C06Expect{}}
+		return cs
+	}
 	var plan c06Plan
 	n := s.Int("chainlen", 0, 4)
 	for i := 0; i < n; i++ {
@@ -1255,6 +1266,37 @@ func c06Eval(cs *Case, ctx *EvalCtx) []Violation {
 				return
 			}
 		}
+	}
+	if cs.Kind == "grammar" {
+		o := obs[0]
+		switch {
+		case o.Res.Panic != "":
+			add(0, "host-panic", "the interpreter panicked: "+o.Res.Panic)
+		case o.Res.Budget:
+			add(0, "no-termination", "step budget exceeded (generated loops are bounded by construction)")
+		case o.ExitStatus() == 65:
+			// the generator produced something the front end rejects: not a C06 matter
+			if ctx.Stats != nil {
+				ctx.Stats.Count("info.generated_program_rejected_by_front_end", 1)
+			}
+		case o.FirstErr >= 0:
+			stopCheck(0, o)
+			if o.ExitStatus() != 70 {
+				add(0, "exit-status", fmt.Sprintf("a runtime diagnostic was written but the exit status is %d", o.ExitStatus()))
+			}
+			if _, ln, ok := FirstDiagnostic(o.Stderr); !ok {
+				add(0, "wrong-line", fmt.Sprintf("the first diagnostic names no line: %q", firstLine2(o.Stderr)))
+			} else if nl := strings.Count(cs.Program, "\n"); ln < 1 || ln > nl {
+				add(0, "wrong-line", fmt.Sprintf("the first diagnostic names line %d of a %d-line program: %q", ln, nl, firstLine2(o.Stderr)))
+			}
+		case o.ExitStatus() != 0:
+			add(0, "exit-status", fmt.Sprintf("no diagnostic but exit status %d", o.ExitStatus()))
+		}
+		if ctx.Stats != nil {
+			ctx.Stats.Seen("c06_sigs", "grammar:"+shape(o.Res))
+			ctx.Stats.Count("kind.grammar", 1)
+		}
+		return vs
 	}
 	if cs.Kind == "clean" {
 		o := obs[0]
